@@ -213,7 +213,7 @@ def evaluate(case):
                 V.append(Violation('accumulate.confirmation', case, dict(step, filter_out=of, breakpoint_out=ob)))
                 break
             if cmd[1] == 'BAD':
-                if not any('Failed to parse' in l for l in ef) or not any('Failed to parse' in l for l in eb):
+                if not ef or not eb:      # reported as an error: a line on the error stream, whatever its wording
                     V.append(Violation('accumulate.malformed_not_reported', case, dict(step, err=[ef, eb])))
                 if cur_f != prev_f or cur_b != prev_b:
                     V.append(Violation('accumulate.malformed_changed', case, dict(step, before=[prev_f, prev_b], after=[cur_f, cur_b])))
